@@ -164,6 +164,7 @@ def run_rule(run, rule_id="F-VIEW.offsets"):
                     run.ob(False, "TypeQualifier.__getitem__", file=mod.rel, line=gi.node.lineno, detail=f"{chain + ((hi, lo),)}", expected="a view", found=f"rejected: {e}")
                     continue
                 ch = chain + ((hi, lo),)
+                cp_orig_base = list(v2._ref_spec[-1].base_offset) if isinstance(v2, _View) and v2._ref_spec else []
                 exp = v2._value.pos if isinstance(v2._value, _Vec) else None
                 try:
                     # resolve a structural copy: the view itself is refined further below (children read its base offsets)
@@ -175,6 +176,22 @@ def run_rule(run, rule_id="F-VIEW.offsets"):
                 n += 1
                 run.ob(isinstance(v2, _View) and got == exp and v2._root is root, "TypeQualifier.__getitem__", file=mod.rel, line=gi.node.lineno,
                        detail="slice-chain " + "".join(f"[{h}:{l}]" for h, l in ch), expected=f"root bits {exp[0]}..{exp[-1]}" if exp else "?", found=f"root bits {got[0]}..{got[-1]}" if got else "no reference", sample=(ch == ((11, 6), (5, 3))))
+                # copies of the reference (made by every typed view .unsigned/.signed/.bitvector) resolve independently:
+                # resolving one copy must not change what a sibling copy addresses
+                try:
+                    r0 = v2._ref_spec[-1]
+                    c1 = Interp(mod, _prims(mod)).call_function("Slice.copy", r0)
+                    c2 = Interp(mod, _prims(mod)).call_function("Slice.copy", r0)
+                    gotc = [resolved(_View(v2._value, v2._ref_spec[:-1] + [c], v2._root)) for c in (c1, c2)]
+                    # restore the original for the children below: r0 itself may have been folded through a shared list
+                    if r0.base_offset != list(cp_orig_base):
+                        gotc.append(f"the original reference lost its base offsets ({cp_orig_base} -> {r0.base_offset})")
+                        r0.base_offset = list(cp_orig_base)
+                except Reject as e:
+                    gotc = [f"rejected: {e}"]
+                n += 1
+                run.ob(all(g == exp for g in gotc), "Slice.copy/simplify", file=mod.rel, line=gi.node.lineno, detail="copies " + "".join(f"[{h}:{l}]" for h, l in ch),
+                       expected=f"every copy addresses root bits {exp[0]}..{exp[-1]}" if exp else "?", found=str([(g[0], g[-1]) if isinstance(g, list) and g else g for g in gotc])[:120], sample=False)
                 nxt.append((ch, v2))
                 # element by index
                 for k in sorted({0, v2._value.width - 1, v2._value.width // 2}):
